@@ -234,7 +234,8 @@ module F = struct
         Printf.printf "NODE %d gen=%d disc=%d procd=%d recv=%d cycle=%d tstate=%s occ=%s sumproc=%d sumblk=%d\n" k
           (i f.ngen) (i f.ndisc) (i f.nprocd) (i f.nrecv) (z f.ncycle) (zs f.ntstate) (zs f.nocchist) (z f.nsumproc) (z f.nsumblk)) w.wnodes;
     L.iteri (fun k ed -> let f = finalize_edge t_end ed in
-      Printf.printf "EDGE %d wsum=%d transit=%s ready=%s\n" k (z f.ewsum) (ns f.est.StoreB.transit) (ns f.est.StoreB.ready)) w.wedges
+      Printf.printf "EDGE %d wsum=%d transit=%s ready=%s res=%d,%d,%d,%d\n" k (z f.ewsum) (ns f.est.StoreB.transit) (ns f.est.StoreB.ready)
+        (L.length f.est.StoreB.putq) (L.length f.est.StoreB.putres) (L.length f.est.StoreB.getq) (L.length f.est.StoreB.getres)) w.wedges
 end
 
 (* ---------------------------------------------------------------- Conserve (verified C03 monitor) *)
